@@ -37,16 +37,23 @@ func regexpFromGlob(pattern string) string {
 	// https://github.com/google/re2/wiki/Syntax
 	// glob (programming) - Wikipedia
 	// https://en.wikipedia.org/wiki/Glob_(programming)
-	repstrs := []struct {
-		old string
-		new string
-	}{
-		{old: "*", new: ".*"},
-		{old: "?", new: "."},
+	var re2Pattern strings.Builder
+	re2Pattern.WriteString("(?s)^")
+	for n := 0; n < len(pattern); n++ {
+		c := pattern[n]
+		switch c {
+		case '*':
+			re2Pattern.WriteString(".*")
+		case '?':
+			re2Pattern.WriteString(".")
+		case '\\', '.', '+', '(', ')', '|', '[', ']', '{', '}', '^', '$':
+			// Every other character matches only itself: regular expression metacharacters are escaped.
+			re2Pattern.WriteByte('\\')
+			re2Pattern.WriteByte(c)
+		default:
+			re2Pattern.WriteByte(c)
+		}
 	}
-	re2Pattern := pattern
-	for _, repstr := range repstrs {
-		re2Pattern = strings.ReplaceAll(re2Pattern, repstr.old, repstr.new)
-	}
-	return "^" + re2Pattern + "$"
+	re2Pattern.WriteString("$")
+	return re2Pattern.String()
 }
